@@ -493,12 +493,57 @@ fn family<H: Hasher<F, Hash = HashOut<F>>>(o: &mut Out, r: &mut Rng, b: &[u64], 
     batch_cases::<H>(o, r, b, hid, if toy { 7 } else if thorough { 6 } else { 4 }, if thorough { 40 } else if toy { 16 } else { 6 });
 }
 
+/// Deep trees: sub-trees below the cap of height 17 / 18 (index arithmetic beyond 16 bits). The leaves are a
+/// function of the index, the expected sibling path is recomputed level by level with the hasher alone
+/// (nothing of hash/merkle_tree.rs), positions on both sides of 2^16 and at the ends.
+/// `deepprove hid k h seed pos = <proof verifies> <path equals the level-by-level path> <another leaf is rejected>`
+fn deep_tree_cases<H: Hasher<F, Hash = HashOut<F>>>(o: &mut Out, r: &mut Rng, hid: u64, tier: &str) {
+    let shapes: &[(usize, usize)] = if tier == "thorough" { &[(17, 0), (18, 1), (19, 2), (17, 1)] } else { &[(17, 0), (18, 1)] };
+    for &(k, h) in shapes {
+        let n = 1usize << k;
+        let sd = r.next_u64();
+        let leaf = |i: usize| -> Vec<F> { vec![F::from_noncanonical_u64((i as u64).wrapping_mul(0x9E3779B97F4A7C15) ^ sd)] };
+        let leaves: Vec<Vec<F>> = (0..n).map(leaf).collect();
+        // level-by-level digests
+        let mut levels: Vec<Vec<HashOut<F>>> = vec![leaves.iter().map(|l| H::hash_or_noop(l)).collect()];
+        for _ in 0..(k - h) {
+            let prev = levels.last().unwrap();
+            let next: Vec<HashOut<F>> = prev.chunks(2).map(|c| H::two_to_one(c[0], c[1])).collect();
+            levels.push(next);
+        }
+        let tree = match catch_unwind(AssertUnwindSafe(|| MerkleTree::<F, H>::new(leaves.clone(), h))) {
+            Ok(t) => t,
+            Err(_) => { o.case("deepprove", &[hid, k as u64, h as u64, sd, 0], || panic!("tree construction panicked")); continue }
+        };
+        let cap_ok = tree.cap.0 == levels[k - h];
+        let sub = 1usize << (k - h);
+        let mut positions = vec![0usize, 1, 65535, 65536, 65537, sub - 1, n - 1, n / 2 + 65536, (1 << 16) | 1];
+        for _ in 0..(if tier == "thorough" { 24 } else { 8 }) { positions.push(r.below(n as u64) as usize); }
+        positions.retain(|p| *p < n);
+        for pos in positions {
+            let t = &tree;
+            let lv = &levels;
+            let lf = leaf(pos);
+            let other = leaf(pos ^ (1 << 16).min(n - 1));
+            o.case("deepprove", &[hid, k as u64, h as u64, sd, pos as u64], move || {
+                let p = t.prove(pos);
+                let ok = verify_merkle_proof_to_cap::<F, H>(lf.clone(), pos, &t.cap, &p).is_ok();
+                let want: Vec<HashOut<F>> = (0..(k - h)).map(|j| lv[j][(pos >> j) ^ 1]).collect();
+                let rejected = verify_merkle_proof_to_cap::<F, H>(other.clone(), pos, &t.cap, &p).is_err();
+                vec![(ok && cap_ok) as u64, (p.siblings == want) as u64, rejected as u64]
+            });
+        }
+    }
+}
+
 pub fn run(seed: u64, tier: &str, w: &mut dyn Write) -> usize {
     let mut r = Rng::new(seed ^ 0xC12);
     let b = boundary_u64();
     let mut o = Out { w, n: 0 };
     family::<PoseidonHash>(&mut o, &mut r.fork(), &b, 0, tier);
     family::<ToyHash>(&mut o, &mut r.fork(), &b, 1, tier);
+    deep_tree_cases::<PoseidonHash>(&mut o, &mut r.fork(), 0, tier);
+    deep_tree_cases::<ToyHash>(&mut o, &mut r.fork(), 1, tier);
     let nk = crate::c12k::run(&mut r.fork(), tier, o.w);
     o.n + nk
 }
